@@ -235,7 +235,7 @@ def recording_params_unit(props=None):
                 # RecordingParameters(**kwargs) with an unknown keyword raises TypeError: only when no parameters object was given
                 obl.append(Obl('C17/recording_params/raises_only_for_bad_keywords', 'C17', s2, rp == NONE, r2)); continue
             t1 = s2.dcontents(tbl); reg = t1[1][cls_v]
-            obl.append(Obl('C17/recording_params/registers_parameters_for_exactly_this_class', 'C17', s2,
+            obl.append(Obl('C17/recording_params/registers_parameters_for_exactly_this_class', ('C17', 'C11'), s2,
                            z3.And(r2[1] == cls_v, t1[0][cls_v], z3.Implies(rp != NONE, reg == rp),
                                   z3.Implies(rp == NONE, z3.And(Val.is_ref(reg), TYP(Val.addr(reg)) == K('RecordingParameters'), Val.addr(reg) > BASE)),
                                   z3.Implies(other != cls_v, z3.And(t1[0][other] == t0[0][other], t1[1][other] == t0[1][other]))), r2))
